@@ -17,6 +17,24 @@ CallOps(c) ==
                                <<"L", c[2] + c[4], c[3] + c[5]>>, <<"L", c[2], c[3] + c[5]>>, <<"Z">> >>
 RECURSIVE Built(_)
 Built(calls) == IF calls = <<>> THEN <<>> ELSE CallOps(Head(calls)) \o Built(Tail(calls))
+HasArc(calls) == \E i \in 1..Len(calls) : calls[i][1] = "arc"
+
+(* Matching a recorded op list against a call list that contains arc calls: an  *)
+(* arc appends one LineTo (to the arc's start) followed by zero or more QuadTo  *)
+(* ops; every other call appends exactly its pattern.  ops are in 1/1024 px.    *)
+RECURSIVE MatchBuilt(_, _, _)
+MatchBuilt(calls, ops, den) ==
+  IF calls = <<>> THEN ops = <<>>
+  ELSE LET c == Head(calls) IN
+       IF c[1] = "arc"
+       THEN /\ ops # <<>> /\ ops[1][1] = "L"
+            /\ \E k \in 0..(Len(ops) - 1) :
+                  /\ \A j \in 2..(k + 1) : ops[j][1] = "Q"
+                  /\ MatchBuilt(Tail(calls), SubSeq(ops, k + 2, Len(ops)), den)
+       ELSE LET pat == [i \in 1..Len(CallOps(c)) |-> [j \in 1..Len(CallOps(c)[i]) |->
+                          IF j = 1 THEN CallOps(c)[i][1] ELSE CallOps(c)[i][j] * (1024 \div den)]]
+            IN /\ Len(ops) >= Len(pat) /\ SubSeq(ops, 1, Len(pat)) = pat
+               /\ MatchBuilt(Tail(calls), SubSeq(ops, Len(pat) + 1, Len(ops)), den)
 
 \* scale an op's coordinates from units of 1/den to units of 1/1024 (den divides 1024)
 ScaleOp(op, den) == [i \in 1..Len(op) |-> IF i = 1 THEN op[1] ELSE op[i] * (1024 \div den)]
